@@ -22,6 +22,7 @@ import (
 	"github.com/go-kid/ioc/container"
 	"github.com/go-kid/ioc/definition"
 	"github.com/go-kid/ioc/syslog"
+	pkgerrors "github.com/pkg/errors"
 	"verifharness/hx"
 )
 
@@ -106,7 +107,7 @@ func (b *Base) log(k string, p int) {
 func (b *Base) DoInit() error {
 	b.log("init", -1)
 	if b.C.InitFail {
-		return errors.New("init failed")
+		return mkErr(b.C.Rank, "init failed")
 	}
 	for _, name := range b.C.InitGet {
 		c, err := b.S.App.GetComponentByName(name)
@@ -120,14 +121,14 @@ func (b *Base) DoInit() error {
 func (b *Base) DoAPS() error {
 	b.log("aps", -1)
 	if b.C.APSFail {
-		return errors.New("aps failed")
+		return mkErr(b.C.Rank+1, "aps failed")
 	}
 	return nil
 }
 func (b *Base) DoRun() error {
 	b.log("run", -1)
 	if b.C.RunFail {
-		return errors.New("run failed")
+		return mkErr(b.C.Rank+2, "run failed")
 	}
 	return nil
 }
@@ -161,13 +162,31 @@ func GlobalEvent(kind string, self any) error {
 			continue
 		}
 		if kind == "run" && c.RunFail {
-			return errors.New("run failed")
+			return mkErr(r+2, "run failed")
 		}
 		if kind == "close" && c.CloseErr {
 			return errors.New("close failed")
 		}
 	}
 	return nil
+}
+
+// failure values of the generated callbacks: a plain error, one wrapped by pkg/errors, and one that follows the
+// pkg/errors Cause() convention without having an underlying error (Cause() == nil) - a failure is a failure whatever
+// its error value looks like
+type causeNilErr struct{ msg string }
+
+func (e causeNilErr) Error() string { return e.msg }
+func (e causeNilErr) Cause() error  { return nil }
+
+func mkErr(salt int, msg string) error {
+	switch ((salt % 3) + 3) % 3 {
+	case 1:
+		return pkgerrors.Wrap(errors.New(msg), "wrapped")
+	case 2:
+		return causeNilErr{msg}
+	}
+	return errors.New(msg)
 }
 
 // NameMix gives a function-local type (which cannot declare methods) its component name through a promoted method.
@@ -225,7 +244,7 @@ func (p *ProcCore) PostProcessBeforeInitialization(c any, name string) (any, err
 	s := p.pb.S
 	s.Log = append(s.Log, Event{K: "before", P: p.pb.C.Rank, C: r, Snap: Snapshot(c)})
 	if p.faulty(0, r) {
-		return nil, errors.New("before failed")
+		return nil, mkErr(r, "before failed")
 	}
 	return c, nil
 }
@@ -238,7 +257,7 @@ func (p *ProcCore) PostProcessAfterInitialization(c any, name string) (any, erro
 	s := p.pb.S
 	s.Log = append(s.Log, Event{K: "after", P: p.pb.C.Rank, C: r})
 	if p.faulty(1, r) {
-		return nil, errors.New("after failed")
+		return nil, mkErr(r+1, "after failed")
 	}
 	mode := 0
 	if p.pb.C.Proc != nil {
@@ -284,7 +303,7 @@ func (p *ProcCore) GetEarlyBeanReference(c any, name string) (any, error) {
 	s := p.pb.S
 	s.Log = append(s.Log, Event{K: "early", P: p.pb.C.Rank, C: r})
 	if p.faulty(2, r) {
-		return nil, errors.New("early failed")
+		return nil, mkErr(r+2, "early failed")
 	}
 	if p.pb.C.Proc != nil && p.pb.C.Proc.Early[fmt.Sprint(r)] == 1 {
 		obj := p.newProxy(c, r)
